@@ -204,7 +204,7 @@ def cmd_table():
             n, m["property"], (m.get("what_changed") or m.get("title", ""))[:110].replace("|", "/").replace("\n", " "),
             (m.get("needs_to_manifest") or "")[:110].replace("|", "/").replace("\n", " "),
             "yes" if m.get("confirmed", {}).get("ok") else "no",
-            "; ".join("%s: %s%s" % (t, "caught" if v["caught"] else "MISSED",
+            "; ".join("%s: %s%s" % (t, "caught" if v["caught"] else ("MISSED" if "@" not in t else "not flagged (another property's check)"),
                                     (" (" + v["failing_clauses"][:80] + ")") if v.get("failing_clauses") else "")
                       for t, v in sorted(c.items()))))
     with open(os.path.join(SEEDED, "README.md"), "w") as f:
